@@ -618,4 +618,17 @@ theorem C16_model_filter_filter {ρ : Env} (hρ : EnvOK ρ) {p : Pipeline} (ha :
   ⟨h.iter, h⟩
 
 
+/-! ### 13. `items()` and dropping the keys again -/
+
+/-- C16: `ds.items().map(lambda kv: kv[1])` iterates like `ds` whenever `items()` is defined on `ds`
+    (it does not raise): dropping the keys again gives back the examples, in order. With a failing
+    `items()` the yielded prefix is still a prefix of what `ds` yields (`RefWF.pairs`). -/
+theorem C16_items_map_snd {r : RefDS} (hw : RefWF r) (he : r.kstream.err = none) :
+    (Ref.map sndOfPair (Ref.items r)).stream = r.stream := by
+  obtain ⟨h1, h2⟩ := hw.pairs.2 he
+  simp only [Ref.map, Ref.items, Stream.mapM, he, Ref.mapErr, Option.map_none, mapMAux_snd_pairVal, h1]
+  cases r with | mk _ _ s _ _ _ => cases s; simp_all
+
+example : (Ref.map sndOfPair (Ref.items dsrc)).stream = dsrc.stream := by rfl
+
 end LazyDs
